@@ -302,10 +302,22 @@ func (b *Balloon) AddBulk(eventBulkDigest []hashing.Digest) ([]*Snapshot, []*sto
 	return snapshotBulk, mutations, nil
 }
 
+// checkDigestLen rejects digests that the configured hasher cannot have produced:
+// the hyper tree derives positions and cache offsets from the digest length.
+func (b *Balloon) checkDigestLen(keyDigest hashing.Digest) error {
+	if expected := int(b.hasherF().Len() / 8); len(keyDigest) != expected {
+		return fmt.Errorf("invalid digest length: %d bytes, expected %d", len(keyDigest), expected)
+	}
+	return nil
+}
+
 // QueryDigestMembership function is used when an event digest is given to ask for a membership proof
 // against a certain balloon version.
 // It asks the hyper tree for this proof and returns the proof if there is no error.
 func (b *Balloon) QueryDigestMembershipConsistency(keyDigest hashing.Digest, version uint64) (*MembershipProof, error) {
+	if err := b.checkDigestLen(keyDigest); err != nil {
+		return nil, err
+	}
 	b.RLock()
 	defer b.RUnlock()
 	var proof MembershipProof
@@ -365,6 +377,9 @@ func (b *Balloon) QueryMembershipConsistency(event []byte, version uint64) (*Mem
 // against the latest balloon version.
 // It asks the hyper tree for this proof and returns the proof if there is no error.
 func (b *Balloon) QueryDigestMembership(keyDigest hashing.Digest) (*MembershipProof, error) {
+	if err := b.checkDigestLen(keyDigest); err != nil {
+		return nil, err
+	}
 	b.RLock()
 	defer b.RUnlock()
 	var proof MembershipProof
